@@ -101,10 +101,51 @@ def oracle(case: dict):
             return None
         finally:
             shutil.rmtree(d, ignore_errors=True)
+    if kind == "reorder":
+        # one SDict instance: order, add keys below the top level (no top-level write), order again
+        s = dictIO.SDict(copy.deepcopy(t))
+        try:
+            s.order_keys()
+            model = copy.deepcopy(gen.plain(dict(s)))
+            for path, k, v in case["adds"]:
+                tgt_i, tgt_m = s, model
+                for p in path:
+                    tgt_i, tgt_m = tgt_i[p], tgt_m[p]
+                tgt_i[k] = copy.deepcopy(v)
+                tgt_m[k] = copy.deepcopy(v)
+            s.order_keys()
+        except Exception as e:  # noqa: BLE001
+            return ("order-raises", f"order / nested additions / order raised {type(e).__name__}: {e}")
+        got = gen.plain(dict(s))
+        if not gen.typed_eq(got, ordered_spec(model)):
+            return ("reorder", f"after ordering, adding {case['adds']!r} and ordering again: {got!r}, expected {ordered_spec(model)!r}")
+        return None
+    if kind == "append-order":
+        d = Path(tempfile.mkdtemp(prefix="c15a_", dir=os.environ.get("VERIF_SCRATCH", "/var/tmp")))
+        try:
+            f = d / ("t" + case["ext"])
+            try:
+                dictIO.DictWriter.write(copy.deepcopy(t), f, mode="w")
+                dictIO.DictWriter.write(copy.deepcopy(case["t2"]), f, mode="a", order=True)
+                got = gen.plain(dict(dictIO.DictReader.read(f)))
+                plain = gen.plain(dict(dictIO.DictReader.read(f, order=False)))
+            except Exception as e:  # noqa: BLE001
+                return ("file-raises", f"append with order=True raised {type(e).__name__}: {e}")
+            strip = lambda x: {k: v for k, v in x.items() if not (isinstance(k, str) and "COMMENT" in k)}  # noqa: E731
+            got = strip(got)
+            if case["ext"] == ".foam":
+                got.pop("FoamFile", None)       # the Foam writer puts its own FoamFile block first, by design
+            if not is_sorted_deep(got):
+                return ("append-order", f"file appended to with order=True reads as {got!r}: not in ascending order at some level")
+            return None
+        finally:
+            shutil.rmtree(d, ignore_errors=True)
     raise ValueError(kind)
 
 
 def shrink(case):
+    if case["kind"] in ("reorder", "append-order"):
+        return
     for t2 in gen.shrink_tree(case["t"]):
         c = dict(case)
         c["t"] = t2
@@ -167,6 +208,41 @@ def run(ctx):
         if r:
             ctx.oracle_fail(c, r[0], r[1])
         ctx.count(("f", ext, wire.enc_tree(t)), not is_sorted_deep(t), "file" + (ext or ".native"))
+    # histories on one instance: order, nested additions, order again; append with order=True onto an existing file
+    for i in range(ctx.n(150, 3000)):
+        t = gen.dom_tree(rng, max_nodes=rng.choice([8, 20]), max_depth=3, int_keys=0.0, key=tricky_key, leaf=lambda r: gen.dom_scalar(r))
+        paths = []
+
+        def walk(x, path):
+            if isinstance(x, dict):
+                if path:
+                    paths.append(list(path))
+                for k, v in x.items():
+                    walk(v, path + [k])
+        walk(t, [])
+        if not paths:
+            continue
+        adds = []
+        for _ in range(rng.randrange(1, 4)):
+            pth = rng.choice(paths)
+            adds.append((pth, tricky_key(rng), rng.choice([gen.dom_scalar(rng), {tricky_key(rng): 1, tricky_key(rng): 2}])))
+        c = {"kind": "reorder", "t": t, "adds": adds}
+        r = oracle(c)
+        if r:
+            ctx.oracle_fail(c, r[0], r[1])
+        ctx.count(("r", wire.enc_tree(t), repr(adds)), True, "reorder")
+    for i in range(ctx.n(60, 1200)):
+        ext = ["", ".json", ".foam"][i % 3]
+        mk = lambda: _str_keys_only(gen.dom_tree(rng, max_nodes=12, max_depth=3, int_keys=0.0, key=lambda r: r.choice(["zeta", "alpha", "mid", "Beta", "sub", "k9", "k10"]),  # noqa: E731
+                                               leaf=lambda r: gen.dom_scalar(r) if ext != ".foam" else _foam_leaf(r)))
+        t, t2 = mk(), mk()
+        if not t or not t2:
+            continue
+        c = {"kind": "append-order", "t": t, "t2": t2, "ext": ext}
+        r = oracle(c)
+        if r:
+            ctx.oracle_fail(c, r[0], r[1])
+        ctx.count(("a", ext, wire.enc_tree(t), wire.enc_tree(t2)), True, "append-order")
     if ctx.classes["order"] == 0 or ctx.classes["file.native"] == 0:
         raise RuntimeError("generator starved")
 
